@@ -199,6 +199,10 @@ class ExprMixin:
             return self.alloc_set(self.set_binop(op, a, b))
         if isinstance(op, ast.Mod) and isinstance(a, (str, SStr)):
             return self.str_percent(a, b)
+        if isinstance(a, SOpt) and isinstance(op, (ast.Add, ast.Sub, ast.Mult)):
+            a = self.force_some(a)
+        if isinstance(b, SOpt) and isinstance(op, (ast.Add, ast.Sub, ast.Mult)):
+            b = self.force_some(b)
         sym = any(isinstance(x, SV) for x in (a, b))
         if not sym and not isinstance(a, (MList, Obj)) and not isinstance(b, (MList, Obj)):
             try:
@@ -293,6 +297,8 @@ class ExprMixin:
             return self.contains(b, a)
         if isinstance(op, ast.NotIn):
             return smt.Not(self.contains(b, a))
+        if isinstance(a, SOpt) or isinstance(b, SOpt):
+            a, b = self.force_some(a), self.force_some(b)
         if self.is_intlike(a) and self.is_intlike(b):
             ta, tb = self.int_term(a), self.int_term(b)
             return {ast.Lt: smt.Lt, ast.LtE: smt.Le, ast.Gt: smt.Gt, ast.GtE: smt.Ge}[type(op)](ta, tb)
@@ -307,6 +313,25 @@ class ExprMixin:
             return smt.BoolC(_PYCMP[type(op)](a, b))
         raise Unsupported('compare %s on %r, %r' % (type(op).__name__, a, b))
 
+    def known(self, t):
+        """t is syntactically among the current path facts"""
+        k = t.key()
+        for p in self.pc:
+            if p.key() == k:
+                return True
+            if p.op == 'and' and any(q.key() == k for q in p.args):
+                return True
+        return False
+
+    def force_some(self, v):
+        """use an optional where python needs a real value: None raises TypeError"""
+        if not isinstance(v, SOpt):
+            return v
+        ok = smt.Not(v.isnone)
+        if not self.known(ok):
+            self.require_safe(ok, lambda: self.make_exception(TypeError, ['NoneType operand'], {}), 'TypeError')
+        return v.val
+
     def identical(self, a, b):
         if a is None or b is None or isinstance(a, SOpt) or isinstance(b, SOpt):
             if a is None and b is None:
@@ -315,7 +340,11 @@ class ExprMixin:
                 return self.is_none(b)
             if b is None:
                 return self.is_none(a)
-            raise Unsupported('is between optionals')
+            if isinstance(a, SOpt) and isinstance(b, SOpt):
+                return smt.Or(smt.And(a.isnone, b.isnone),
+                              smt.And(smt.Not(a.isnone), smt.Not(b.isnone), self.identical(a.val, b.val)))
+            o, other = (a, b) if isinstance(a, SOpt) else (b, a)
+            return smt.And(smt.Not(o.isnone), self.identical(o.val, other))
         if isinstance(a, (bool, SBool)) and isinstance(b, (bool, SBool)):
             return smt.Eq(self.truth(a), self.truth(b))
         if isinstance(a, SBool) or isinstance(b, SBool):
@@ -324,6 +353,8 @@ class ExprMixin:
             if isinstance(x, (Obj, MList, MSet, MDict)):
                 return smt.BoolC(type(a) is type(b) and a.oid == b.oid)
         if isinstance(a, SOpaque) and isinstance(b, SOpaque):
+            return smt.Eq(a.t, b.t)
+        if isinstance(a, SRef) and isinstance(b, SRef):
             return smt.Eq(a.t, b.t)
         if isinstance(a, SOpaque) or isinstance(b, SOpaque):
             other = b if isinstance(a, SOpaque) else a
@@ -427,15 +458,62 @@ class ExprMixin:
                     raise Unsupported('dict comprehension with symbolic keys over concrete items')
                 d[k] = v
             return self.alloc_dict(d)
+        if isinstance(it, SymRange):
+            return self.sym_comprehension(node, gen, sub, it, kind)
         return self.sym_comprehension(node, gen, sub, self.seq_value(it), kind)
 
+    def quantified(self, comp, fr, is_all):
+        """any(...)/all(...) over a symbolic collection: a quantified formula, no
+        intermediate sequence (so it nests under other quantifiers)."""
+        if len(comp.generators) != 1:
+            return None
+        gen = comp.generators[0]
+        it = self.eval(gen.iter, fr)
+        if isinstance(it, SymRange):
+            sv = it
+        else:
+            if self.concrete_items(it) is not None:
+                return None
+            sv = self.seq_value(it)
+        sub = Frame({}, fr.globals, fr, fr.fn, fr.qualname)
+        i = smt.fresh_bound('q', INT)
+        if isinstance(sv, SymRange):
+            rng = smt.And(smt.Le(sv.lo, i), smt.Lt(i, sv.hi))
+            self.assign(gen.target, SInt(i), sub)
+        else:
+            rng = smt.And(smt.Le(smt.IntC(0), i), smt.Lt(i, smt.SeqLen(sv.t)))
+            self.assign(gen.target, self.value_of_sort(smt.SeqNth(sv.t, i), sv.ety), sub)
+        self.pure += 1
+        self.qctx.append(([i], rng))
+        try:
+            conds = [self.truth(self.eval(c, sub)) for c in gen.ifs]
+            body = self.truth(self.eval(comp.elt, sub))
+        except NeedFork:
+            raise Unsupported('body of any()/all() over a symbolic collection needs a decision '
+                              '(line %d)' % comp.lineno)
+        finally:
+            self.pure -= 1
+            self.qctx.pop()
+        guard = smt.And(rng, *conds)
+        if is_all:
+            return self.as_bool_value(smt.ForAll([i], smt.Implies(guard, body)))
+        return self.as_bool_value(smt.Exists([i], smt.And(guard, body)))
+
     def sym_comprehension(self, node, gen, sub, sv, kind):
+        if self.qctx:
+            raise Unsupported('comprehension materialised under a quantifier (line %d): use any()/all()'
+                              % node.lineno)
         """Comprehension over a symbolic sequence: defined pointwise by a
         quantified axiom (map); filters are supported for sets only."""
-        n = smt.SeqLen(sv.t)
         i = smt.fresh_bound('i', INT)
-        rng = smt.And(smt.Le(smt.IntC(0), i), smt.Lt(i, n))
-        self.assign(gen.target, self.value_of_sort(smt.SeqNth(sv.t, i), sv.ety), sub)
+        if isinstance(sv, SymRange):
+            n = smt.Ite(smt.Ge(sv.hi, sv.lo), smt.Sub(sv.hi, sv.lo), smt.IntC(0))
+            rng = smt.And(smt.Le(smt.IntC(0), i), smt.Lt(i, n))
+            self.assign(gen.target, SInt(smt.Add(sv.lo, i)), sub)
+        else:
+            n = smt.SeqLen(sv.t)
+            rng = smt.And(smt.Le(smt.IntC(0), i), smt.Lt(i, n))
+            self.assign(gen.target, self.value_of_sort(smt.SeqNth(sv.t, i), sv.ety), sub)
         self.pure += 1
         self.qctx.append(([i], rng))
         try:
@@ -454,8 +532,23 @@ class ExprMixin:
         flt = smt.And(*conds)
         if kind == 'list':
             if conds:
-                raise Unsupported('filtered list comprehension over symbolic sequence (line %d)'
-                                  % node.lineno)
+                # filtered: an abstract sequence r with: every element comes from a selected
+                # source element; r is non-empty iff some source element is selected;
+                # len(r) <= n.  (order and multiplicity are not constrained: enough for
+                # len(...) > 0 and membership reasoning; stated as a library axiom)
+                from . import builtins_sym
+                builtins_sym._axiom('filtered list comprehension over a symbolic sequence: abstracted '
+                                    '(non-empty iff some element selected; elements come from selected ones)')
+                ety = self.type_of_value(e)
+                es = type_sort(ety, self.env.classes)
+                r = self.fresh_term('fcomp@%d' % node.lineno, smt.SeqS(es), False)
+                j = smt.fresh_bound('j', INT)
+                self.assume(smt.Le(smt.SeqLen(r), n))
+                self.assume(smt.Eq(smt.Gt(smt.SeqLen(r), smt.IntC(0)), smt.Exists([i], smt.And(rng, flt))))
+                self.assume(smt.ForAll([j], smt.Implies(
+                    smt.And(smt.Le(smt.IntC(0), j), smt.Lt(j, smt.SeqLen(r))),
+                    smt.Exists([i], smt.And(rng, flt, smt.Eq(smt.SeqNth(r, j), self.term_of(e)))))))
+                return self.alloc_list(SSeqV(r, ety))
             ety = self.type_of_value(e)
             r = self.fresh_term('comp@%d' % node.lineno, smt.SeqS(type_sort(ety, self.env.classes)), False)
             self.assume(smt.Eq(smt.SeqLen(r), n))
@@ -501,6 +594,11 @@ class ExprMixin:
             finally:
                 self.heap, self.ghost = saved, savedg
         f = self.eval(node.func, fr)
+        if (f is _bi.any or f is _bi.all) and len(node.args) == 1 and not node.keywords and \
+                isinstance(node.args[0], (ast.GeneratorExp, ast.ListComp)):
+            r = self.quantified(node.args[0], fr, f is _bi.all)
+            if r is not None:
+                return r
         args = []
         for a in node.args:
             if isinstance(a, ast.Starred):
@@ -545,7 +643,7 @@ class ExprMixin:
             return list(v.keys())
         if isinstance(v, str):
             return list(v)
-        if isinstance(v, (SSeqV, MSet, SSetV, SMapV)):
+        if isinstance(v, (SSeqV, MSet, SSetV, SMapV, SymRange)):
             return None
         if isinstance(v, (dict.keys.__class__,)):
             return list(v)
